@@ -22,7 +22,9 @@ RULE = (
     "dimensions. Executed natively (the operators call evaluate) in a disposable worker; results decoded from raw "
     "arrays. Oracle: exact-rational element-wise / matrix reference with the right dimensions; ValueError iff the "
     "shapes are incompatible by the documented table (both directions); NoKernelFoundError is allowed; for natural "
-    "orderings the result format follows the documented rule. non-trivial = both operands have a stored non-zero "
+    "orderings the result format follows the documented rule. The operators' kernels are generated at initial array "
+    "capacities 1, 2, 3 and the default (rotating by task), with their allocations routed through a guarded allocator "
+    "whose zones behind every block must be intact while the result is alive. non-trivial = both operands have a stored non-zero "
     "AND at least one compressed level; distinct by (formats, dims, op, data hash)."
 )
 ASSUMPTIONS = [
@@ -127,7 +129,7 @@ def describe(call):
             return f"T[{s['tensor']['fmt'] or 'scalar'}]{tuple(s['tensor']['dims'])}"
         return f"{s['type']}({s['scalar']})"
 
-    return f"{one(call['left'])} {call['op']} {one(call['right'])}"
+    return f"{one(call['left'])} {call['op']} {one(call['right'])}" + (f" [initial capacity {call['capacity']}]" if call.get("capacity") else "")
 
 
 def judge(call, rep):
@@ -150,6 +152,11 @@ def judge(call, rep):
         return [fail(f"incompatible-shapes-accepted:{call['op']}", f"{d}: returned a tensor, expected {exp[0]}")], labels
     raw = rep["raw"]
     _k, dims, vals, rule = exp
+    if rep.get("guard_zones_overwritten"):
+        return [fail("operator-writes-past-allocation", f"{d}: {rep['guard_zones_overwritten']} guard zone(s) behind arrays the "
+                     "operator's kernel allocated were overwritten")], labels
+    if "guard_zones_overwritten" in rep:
+        labels.add("guarded_allocator")
     if raw["problem"]:
         return [fail("result-unreadable", f"{d}: {raw['problem']}")], labels
     if tuple(raw["dims"]) != tuple(dims):
@@ -185,14 +192,18 @@ def wire(call):
     return {"op": call["op"], "left": strip(call["left"]), "right": strip(call["right"])}
 
 
-def run_calls(calls, stats, worker):
+def run_calls(calls, stats, worker, capacity=None):
+    """capacity: initial capacity of the arrays the operator's kernel appends to (None = tensora's default of 2^20);
+    at 1 or 2 the growth paths run on these small operands.  Kernel allocations go through the guarded allocator."""
+    for c in calls:
+        c["capacity"] = capacity
     for i in range(0, len(calls), BATCH):
         chunk = calls[i : i + BATCH]
-        rep = worker.call({"op": "operators", "calls": [wire(c) for c in chunk]}, timeout=300)
+        rep = worker.call({"op": "operators", "calls": [wire(c) for c in chunk], "capacity": capacity, "guard": True}, timeout=300)
         if "crash" in rep:
             # find the culprit one by one
             for c in chunk:
-                r1 = worker.call({"op": "operators", "calls": [wire(c)]}, timeout=120)
+                r1 = worker.call({"op": "operators", "calls": [wire(c)], "capacity": capacity, "guard": True}, timeout=120)
                 if "crash" in r1:
                     stats.add(storable(c), result([fail("operator-crashes-process", f"{describe(c)}: {r1['crash']}")],
                                                   {f"op:{c['op']}"}, nontrivial(c), jhash(storable(c)), sample(c)))
@@ -212,7 +223,7 @@ def storable(call):
             return {"tensor": s["tensor"], "dok": [[list(c), v] for c, v in sorted(s["dok"].items())]}
         return dict(s)
 
-    return {"op": call["op"], "left": one(call["left"]), "right": one(call["right"])}
+    return {"op": call["op"], "left": one(call["left"]), "right": one(call["right"]), "capacity": call.get("capacity")}
 
 
 def unstore(call):
@@ -221,7 +232,7 @@ def unstore(call):
             return {"tensor": s["tensor"], "dok": {tuple(c): v for c, v in s["dok"]}}
         return dict(s)
 
-    return {"op": call["op"], "left": one(call["left"]), "right": one(call["right"])}
+    return {"op": call["op"], "left": one(call["left"]), "right": one(call["right"]), "capacity": call.get("capacity")}
 
 
 def sample(call):
@@ -242,6 +253,7 @@ def enum_task(task):
     stats = Stats()
     worker = Worker(module="harness.native.worker2")
     calls = []
+    cap = None
     try:
         if kind == "pairs":
             order, pairs = payload
@@ -250,6 +262,7 @@ def enum_task(task):
                 for op in "+-*":
                     calls.append({"op": op, "left": tensor_spec(dims, fa, pattern(dims, 0)),
                                   "right": tensor_spec(dims, fb, pattern(dims, 1))})
+            cap = 2
         elif kind == "scalars":
             for order, fa in payload:
                 dims = DIMS[order]
@@ -265,7 +278,9 @@ def enum_task(task):
                 for fa, fb in pairs:
                     calls.append({"op": "@", "left": tensor_spec(da, fa, pattern(da, 0)),
                                   "right": tensor_spec(db, fb, pattern(db, 1))})
-        run_calls(calls, stats, worker)
+            cap = 1
+        run_calls(calls, stats, worker, cap)
+        stats.counters[f"calls_at_initial_capacity_{cap or 'default'}"] += len(calls)
     finally:
         worker.close()
     return stats
@@ -319,7 +334,10 @@ def random_task(task):
     stats = Stats()
     worker = Worker(module="harness.native.worker2")
     try:
-        run_calls(generate_cases(random_calls(tier), n, seed * 3001 + shard), stats, worker)
+        cap = [1, 2, None, 3][shard % 4]
+        cs = generate_cases(random_calls(tier), n, seed * 3001 + shard)
+        run_calls(cs, stats, worker, cap)
+        stats.counters[f"calls_at_initial_capacity_{cap or 'default'}"] += len(cs)
     finally:
         worker.close()
     return stats
@@ -334,7 +352,7 @@ def replay(payload):
     st_ = Stats()
     w = Worker(module="harness.native.worker2")
     try:
-        run_calls([call], st_, w)
+        run_calls([call], st_, w, call.get("capacity"))
     finally:
         w.close()
     return [{"bucket": b, "detail": ex[1], "info": ex[2]} for b, v in st_.buckets.items() for ex in v["examples"]]
